@@ -69,6 +69,12 @@ type refTemplate struct {
 	trailing bool        // the declared template ends in '/' (or is the root under a non-root base path)
 	compos   bool        // some segment starts with a placeholder and continues ({a}.{b}, {a}.json)
 	prefixed bool        // some segment has a literal before its first placeholder (x{a})
+	// structAt >= 0: the template has placeholders AND its pure-literal segment structAt holds a ':' or
+	// '*' after its first byte ("items:batchGet", "a*w9"), which the trie router reads as a parameter or
+	// wildcard; structPrefix is the literal text before that byte, structStar tells which one it is
+	structAt     int
+	structPrefix string
+	structStar   bool
 }
 
 func parseSeg(s string) []segPart {
@@ -103,9 +109,15 @@ func splitSegs(p string) []string {
 
 func newRefTemplate(base string, op *gen.Op) *refTemplate {
 	full := path.Clean(path.Join("/", base, op.Template))
-	rt := &refTemplate{op: op}
-	for _, s := range splitSegs(full) {
+	rt := &refTemplate{op: op, structAt: -1}
+	hasPlaceholder := strings.Contains(full, "{")
+	for si, s := range splitSegs(full) {
 		parts := parseSeg(s)
+		if hasPlaceholder && rt.structAt < 0 && isPureLit(parts) && len(s) > 1 {
+			if k := strings.IndexAny(s[1:], ":*"); k >= 0 {
+				rt.structAt, rt.structPrefix, rt.structStar = si, s[:k+1], s[k+1] == '*'
+			}
+		}
 		if len(parts) > 1 {
 			if parts[0].name == "" {
 				rt.prefixed = true
@@ -428,7 +440,11 @@ func runCase(m *mon.M, c *Case) {
 			}
 			if pv != nil {
 				m.Eval(1)
-				m.Violate("panic", fmt.Sprintf("%s %q panicked: %v\n%s", rq.Method, rq.Target, pv, st), one)
+				pfeat := "simple"
+				if req != nil {
+					pfeat = inputFeature(refs, splitSegs(path.Clean(req.URL.EscapedPath())))
+				}
+				m.Violate("panic/"+pfeat, fmt.Sprintf("%s %q panicked: %v\n%s", rq.Method, rq.Target, pv, st), one)
 				continue
 			}
 		}
@@ -558,6 +574,20 @@ func runCase(m *mon.M, c *Case) {
 // i.e. whose pure-literal segments equal the request's and whose other segments are non-empty. It is a
 // feature of the input only (used in signatures), never part of a verdict.
 func inputFeature(refs []*refTemplate, segs []string) string {
+	for _, rt := range refs {
+		if rt.structAt >= 0 && len(segs) > rt.structAt && (rt.structStar || len(rt.segs) == len(segs)) {
+			// the request gets as far as the literal with the ':' or '*' and shares the text before it
+			ok := true
+			for i := 0; i < rt.structAt; i++ {
+				if isPureLit(rt.segs[i]) && rt.segs[i][0].lit != segs[i] {
+					ok = false
+				}
+			}
+			if ok && (strings.HasPrefix(segs[rt.structAt], rt.structPrefix) || strings.HasPrefix(decodedOr(segs[rt.structAt]), rt.structPrefix)) {
+				return "colon-or-star-in-literal-of-parameterised-template"
+			}
+		}
+	}
 	feat := "simple"
 	for _, rt := range refs {
 		if len(rt.segs) != len(segs) {
@@ -566,6 +596,13 @@ func inputFeature(refs []*refTemplate, segs []string) string {
 		ok := true
 		for i, parts := range rt.segs {
 			if isPureLit(parts) && parts[0].lit != segs[i] {
+				ok = false
+				break
+			}
+			// a segment "x{a}" is routed as the literal text it is written as: it only gets in the way
+			// of requests whose segment starts with that literal (a template that also has a composite
+			// segment captures anything there, so it stays in the loose class)
+			if !rt.compos && len(parts) > 1 && parts[0].name == "" && !strings.HasPrefix(segs[i], parts[0].lit) && !strings.HasPrefix(decodedOr(segs[i]), parts[0].lit) {
 				ok = false
 				break
 			}
@@ -581,6 +618,13 @@ func inputFeature(refs []*refTemplate, segs []string) string {
 		}
 	}
 	return feat
+}
+
+func decodedOr(seg string) string {
+	if d, err := url.PathUnescape(seg); err == nil {
+		return d
+	}
+	return seg
 }
 
 func sharesTwo(refs []*refTemplate, segs []string) bool {
@@ -614,6 +658,8 @@ func sameMap(a, b map[string]string) bool {
 var methods = []string{"GET", "POST", "PUT", "DELETE", "PATCH", "HEAD", "OPTIONS"}
 var basePaths = []string{"/", "", "/api", "/api/", "/a/b", "/", "/x"}
 
+var richLiterals = []string{"items:batchGet", "a*w9", "v=1", "caf\u00e9", "Users", "x~y", "a;b", "a,b", "a+b", "@me"}
+
 var placeholderWords = append([]string{"api", "a", "b", "x", "p", "ap"}, gen.Words...)
 
 func genTemplate(r *rand.Rand, id int) string {
@@ -644,12 +690,23 @@ func genTemplate(r *rand.Rand, id int) string {
 			sb.WriteString("{" + name() + "}")
 		case k < 112:
 			sb.WriteString(gen.Pick(r, gen.Words) + "{" + name() + "}")
-		case k < 114:
+		case k < 113:
 			sb.WriteString("{" + name() + "}." + "{" + name() + "}")
+		case k < 114:
+			// a separator of several bytes between the two placeholders
+			sb.WriteString("{" + name() + "}" + []string{".v", "--", "_of_"}[r.Intn(3)] + "{" + name() + "}")
 		case k < 115:
 			sb.WriteString("{" + name() + "}.json")
-		case k < 119:
+		case k < 117:
 			sb.WriteString(gen.Pick(r, gen.Words) + "." + gen.Pick(r, gen.Words))
+		case k < 119:
+			// literal segments holding bytes that are special elsewhere (denco, URLs, letter case)
+			w := gen.Pick(r, richLiterals)
+			if usedNames[w] { // not twice in one template ("a*w9" twice would name two wildcards alike)
+				w = gen.Pick(r, gen.Words)
+			}
+			usedNames[w] = true
+			sb.WriteString(w)
 		default:
 			sb.WriteString(gen.Pick(r, gen.Words) + "-{" + name() + "}-{" + name() + "}")
 		}
@@ -723,7 +780,7 @@ func encodeValue(r *rand.Rand, v string) string {
 	return sb.String()
 }
 
-var valueAlphabet = []string{":", "*", "#", ";", "=", "%2F", "%25", "+", " ", "{", "}", "é", "\x00", ".", "..", "~", "a", "ab", "x", "users", "@", "&", "$", ",", "!", "'", "(", ")", "%", "/", "?", "\xff", "json", ".json", "-"}
+var valueAlphabet = []string{":", "*", "#", ";", "=", "%2F", "%25", "+", " ", "{", "}", "é", "\x00", ".", "..", "~", "a", "ab", "x", "users", "@", "&", "$", ",", "!", "'", "(", ")", "%", "/", "?", "\xff", "json", ".json", "-", "A", "Ab", "USERS", "Users"}
 
 func genValue(r *rand.Rand) string {
 	n := 1 + r.Intn(3)
@@ -758,7 +815,19 @@ func instantiate(r *rand.Rand, base, tpl string) string {
 }
 
 func mutateTarget(r *rand.Rand, t string) string {
-	switch r.Intn(9) {
+	switch r.Intn(10) {
+	case 9: // another letter case of one letter: paths are case-sensitive
+		b := []byte(t)
+		for tries := 0; tries < 8 && len(b) > 1; tries++ {
+			i := 1 + r.Intn(len(b)-1)
+			isLetter := (b[i] >= 'a' && b[i] <= 'z') || (b[i] >= 'A' && b[i] <= 'Z')
+			inEscape := b[i-1] == '%' || (i >= 2 && b[i-2] == '%')
+			if isLetter && !inEscape {
+				b[i] ^= 0x20
+				break
+			}
+		}
+		return string(b)
 	case 0:
 		return t + "/"
 	case 1:
@@ -793,6 +862,8 @@ func mutateTarget(r *rand.Rand, t string) string {
 	}
 }
 
+var extensionMethods = []string{"PROPFIND", "TRACE", "LINK", "QUERY"}
+
 func randCase(r *rand.Rand, s string) string {
 	b := []byte(s)
 	switch r.Intn(4) {
@@ -823,6 +894,9 @@ func genRequests(r *rand.Rand, d *gen.Desc, n int) []Req {
 		meth := op.Method
 		if r.Intn(4) == 0 {
 			meth = methods[r.Intn(len(methods))]
+		}
+		if r.Intn(20) == 0 {
+			meth = extensionMethods[r.Intn(len(extensionMethods))] // no description can declare these
 		}
 		out = append(out, Req{Method: randCase(r, meth), Target: mon.Q(t)})
 	}
